@@ -207,6 +207,54 @@ def c30_task(t):
     return res
 
 
+def dl_atoms():
+    """difference constraints over x, y, z with small bounds, equalities included: triples of them close cycles of every weight sign, incl. weight 0"""
+    out = []
+    for a, b in (('x', 'y'), ('y', 'z'), ('z', 'x'), ('y', 'x'), ('z', 'y'), ('x', 'z')):
+        for rel in ('=', '<=', '<'):
+            for c in ('(- 1)', '0', '1'):
+                if rel == '=' and (a, b) in (('y', 'x'), ('z', 'y'), ('x', 'z')): continue
+                out.append('(%s (- %s %s) %s)' % (rel, a, b, c))
+    return out
+
+
+def c30_dl_task(t):
+    """every set of 3 difference constraints, flat under the tracking options, and split as 2 in the base frame + 1..2 inside a push"""
+    famname, mode, start, step = t
+    fam = F.FAMILIES[famname]
+    res = core.new_result(); cov = res['cov']
+    w = S.worker()
+    atoms = dl_atoms()
+    head = '(set-logic %s)(declare-fun x () %s)(declare-fun y () %s)(declare-fun z () %s)' % (fam.logic, *(['Real' if 'RDL' in famname else 'Int'] * 3))
+    hangs = {}
+    if mode == 'flat':
+        jobs = [(o, c) for c in itertools.combinations(range(len(atoms)), 3) for o in ('cores', 'proofs', 'itp', 'ghost')]
+    else:
+        jobs = [('', c) for c in itertools.permutations(range(len(atoms)), 3) if c[0] < c[1]]
+    for o, c in jobs[start::step]:
+        A = [atoms[i] for i in c]
+        if mode == 'flat':
+            script = S.opt_text((o,)) + head + ''.join('(assert %s)' % a for a in A) + '(check-sat)'
+        else:
+            script = head + '(assert %s)(assert %s)(check-sat)(push 1)(assert %s)(check-sat)(pop 1)(check-sat)' % tuple(A)
+        r = w.run(script, timeout=1.0)
+        cov['executions'] += 1
+        res['distinct'].append((famname, mode, o, c))
+        if not r.timeout: continue
+        cov['screen_timeouts'] += 1
+        cls = (famname, mode, o)
+        if hangs.get(cls, 0) >= 2: cov['timeouts_same_class_not_reconfirmed'] += 1; continue
+        hangs[cls] = hangs.get(cls, 0) + 1
+        r2 = runner.fresh_run(script, timeout=30)
+        if r2.timeout:
+            rec = {'logic': fam.logic, 'family': famname, 'options': [o] if o else [], 'symptom': 'divergence', 'input_class': 'difference_cycle_' + mode,
+                   'what': 'check-sat did not return within 30 s in a fresh process on three difference constraints %s' % A}
+            res['violations'].append((rec, script, 'smt2'))
+        else:
+            cov['slow_but_returned'] += 1
+    return res
+
+
 def run_c30(tier):
     chk = core.Check('C30', tier, 'exploration',
                      'every assertion set (size<=2) and every history (length<=5, 4-assertion micro-pool) of the 9 non-integer families x every option vector within deviation 2 over 12 coordinates (engines, incremental, tracking, restarts, seed, minimisation); '
@@ -220,6 +268,8 @@ def run_c30(tier):
     chk.run_stage('sets n<=2, full pools, deviation 1', [('sets', f, ('full', 2), d1, s, n) for f in C30_FAMS for s in range(n)], c30_task)
     chk.run_stage('sets n<=2, 6-atom pools, deviation 2 (%d vectors)' % len(d2), [('sets', f, ('core', 2), d2[len(d1):], s, n) for f in C30_FAMS for s in range(n)], c30_task)
     chk.run_stage('histories L<=5, deviation 1', [('hist', f, 5, d1, s, n) for f in hf for s in range(n)], c30_task)
+    chk.run_stage('difference logic: every triple of %d difference constraints (bounds -1..1, equalities), flat under cores/proofs/interpolants/ghost-vars and as base frame + push' % len(dl_atoms()),
+                  [(f, m, s, 16) for f in ('QF_RDL',) for m in ('flat', 'push') for s in range(16)], c30_dl_task)
     if tier == 'thorough':
         chk.run_stage('histories L<=5, deviation 2', [('hist', f, 5, d2[len(d1):], s, 32) for f in hf for s in range(32)], c30_task)
         chk.run_stage('sets n<=3, 6-atom pools, deviation 1', [('sets', f, ('core', 3), d1, s, 32) for f in C30_FAMS for s in range(32)], c30_task)
